@@ -1018,8 +1018,13 @@ class Evaluator:
             if isinstance(x, Sym) and strip_opt(x.typ)[0] == 'list':
                 var = self.new_sym('item', TypeEnv.elem_type(strip_opt(x.typ)))
                 return [RepL(Src(x, var, []), [TStr([Hole(var)])])]
+            if isinstance(x, TAlt):
+                ia, ib = as_items(x.a), as_items(x.b)
+                if ia is not None and ib is not None:
+                    return [AltL(x.cond, ia, ib)]
             return None
-        if (isinstance(a, TList) or isinstance(b, TList)) and as_items(a) is not None and as_items(b) is not None:
+        if (isinstance(a, TList) or isinstance(b, TList) or (isinstance(a, TAlt) and isinstance(b, TAlt))) and \
+                as_items(a) is not None and as_items(b) is not None:
             return TList(as_items(a) + as_items(b))
         if isinstance(a, TBlock):
             return TBlock(a.items + self.block_items(b, depth))
